@@ -146,7 +146,8 @@ public:
 	}
 
 	bool empty() const {
-		for(const auto & callbackList : callbackListList) {
+		for(size_t i = 0; i < callbackListList.size(); ++i) {
+			const auto callbackList = doLoadCallbackList(i);
 			if(callbackList && ! callbackList->empty()) {
 				return false;
 			}
@@ -213,7 +214,7 @@ public:
 
 	bool remove(const Handle & handle)
 	{
-		auto callbackList = callbackListList[handle.index];
+		auto callbackList = doLoadCallbackList(handle.index);
 		if(callbackList) {
 			return callbackList->doRemove(handle);
 		}
@@ -278,15 +279,21 @@ private:
 	{
 		static_assert(PrototypeInfo::index >= 0, "Can't find invoker for the given argument types.");
 
-		if(! callbackListList[PrototypeInfo::index]) {
-			std::lock_guard<Mutex> lockGuard(callbackListListMutex);
+		// The slots are plain shared_ptr, not atomic: reading a slot while another thread creates the list in it
+		// is a data race, so the slot is always read with the mutex held (no double-checked locking).
+		std::lock_guard<Mutex> lockGuard(callbackListListMutex);
 
-			if(! callbackListList[PrototypeInfo::index]) {
-				callbackListList[PrototypeInfo::index] = std::make_shared<HomoCallbackListType<typename PrototypeInfo::Prototype> >();
-			}
+		if(! callbackListList[PrototypeInfo::index]) {
+			callbackListList[PrototypeInfo::index] = std::make_shared<HomoCallbackListType<typename PrototypeInfo::Prototype> >();
 		}
 
 		return std::static_pointer_cast<HomoCallbackListType<typename PrototypeInfo::Prototype> >(callbackListList[PrototypeInfo::index]);
+	}
+
+	std::shared_ptr<HomoCallbackListTypeBase> doLoadCallbackList(const size_t index) const
+	{
+		std::lock_guard<Mutex> lockGuard(callbackListListMutex);
+		return callbackListList[index];
 	}
 
 private:
